@@ -6,16 +6,16 @@ symbolically on a value of n solver code points.
 """
 from __future__ import annotations
 
-from symex.poly import pall_in, pand, pconcat, pcontains, peq, pimplies, plen, pnot, por, pstartswith, pendswith
+from symex.poly import pall_in, pand, pconcat, pcontains, peq, pimplies, plen, pnot, por, pstartswith, pendswith, pstr
 
 PROPERTY = "C13"
 BOUNDS = {
     "quick": {"value_code_points": "<= 3, each U+0000..U+07FF (1- and 2-byte UTF-8); plus 2-3 code points <= U+00FF inside the skeletons \\{} {}\\ \"{}\" {};", "max_age": "any int rendered with <= 6 digits"},
     "thorough": {"value_code_points": "<= 4 over U+0000..U+07FF; <= 2 over all of Unicode incl. surrogates", "max_age": "any int with <= 6 digits"},
 }
-STUBS = ["datetime.now / http_date not reached (sync_expires=False, expires=None)", "urllib.parse.quote runs natively on the concrete path"]
+STUBS = ["datetime.now not reached (sync_expires=False); an explicit expires instant uses the contract model of datetime (harness/dtmodel.py), email.utils.format_datetime is interpreted", "urllib.parse.quote runs natively on the concrete path"]
 ASSUMPTIONS = ["key is the concrete token 'k'", "a space inside a quoted value is accepted raw (pinned by the suite's test_dump_cookie)"]
-OUTSIDE = ["IDNA domains", "expires dates", "the test client's cookie jar", "values longer than the bound"]
+OUTSIDE = ["IDNA domains", "expires derived from max_age and the clock (sync_expires)", "the test client's cookie jar", "values longer than the bound"]
 
 # RFC 6265 cookie-octet
 COOKIE_OCTET = [0x21, (0x23, 0x2B), (0x2D, 0x3A), (0x3C, 0x5B), (0x5D, 0x7E)]
@@ -86,31 +86,53 @@ SAMESITE = [None, "strict", "LAX", "nOnE", "Strict", "bogus", ""]
 PATHS = [None, "/", "/a b", "/x;y", "/\u00e9"]
 
 
-def body_attributes(I, X, n=1, samesite_i=0, path_i=0):
+def body_attributes(I, X, n=1, samesite_i=0, path_i=0, expires_month=0):
     """attribute assembly: exactly the requested attributes, canonical, fixed order"""
     from werkzeug import http
-    from symex.poly import pstr
+    pass
 
     value = X.str("value", n, minlen=n, maxcp=0xFF)
     X.known("C13-raw-control-1a-1f", pnot(pall_in(value, [(0, 0x19), (0x20, 0x10FFFF)])))
-    has_age = X.flag("has_age")
-    max_age = X.int("max_age", -99999, 999999) if has_age else None
-    secure = X.flag("secure")
-    httponly = X.flag("httponly")
-    partitioned = X.flag("partitioned")
     samesite = SAMESITE[samesite_i]
     path = PATHS[path_i]
-    domain = X.choice("domain", [None, "example.com", ".example.com:8080", "localhost"])
+    if expires_month:
+        # the date obligations keep the other attributes fixed (they are covered without a date)
+        has_age, max_age, secure, partitioned, domain = False, None, False, False, None
+        httponly = X.flag("httponly")
+    else:
+        has_age = X.flag("has_age")
+        max_age = X.int("max_age", -99999, 999999) if has_age else None
+        secure = X.flag("secure")
+        httponly = X.flag("httponly")
+        partitioned = X.flag("partitioned")
+        domain = X.choice("domain", [None, "example.com", ".example.com:8080", "localhost"])
+    expires = None
+    exp_tail = None
+    if expires_month:
+        # an explicit expiry instant: year, day and time are solver integers
+        import datetime as dtm
+
+        from harness.dtmodel import SymDatetime, valid_day
+
+        y = X.int("ey", 1000, 9999)
+        d = X.int("ed", 1, 31)
+        valid_day(X, y, expires_month, d)
+        f = (y, expires_month, d, X.int("eh", 0, 23), X.int("emi", 0, 59), X.int("es", 0, 59))
+        expires = SymDatetime(f, dtm.timezone.utc) if X.symbolic else dtm.datetime(*f, tzinfo=dtm.timezone.utc)
+        mon = ["Jan", "Feb", "Mar", "Apr", "May", "Jun", "Jul", "Aug", "Sep", "Oct", "Nov", "Dec"][expires_month - 1]
+        exp_tail = pconcat(pstr(f[2]).zfill(2), " ", mon, " ", pstr(y), " ", pstr(f[3]).zfill(2), ":", pstr(f[4]).zfill(2), ":", pstr(f[5]).zfill(2), " GMT")
     try:
         rv = I.call(http.dump_cookie, ("k", value), {
             "max_age": max_age, "path": path, "domain": domain, "secure": secure, "httponly": httponly,
-            "samesite": samesite, "partitioned": partitioned, "sync_expires": False})
+            "samesite": samesite, "partitioned": partitioned, "sync_expires": False, "expires": expires})
     except ValueError:
         return samesite in ("bogus", ""), {"raised": "ValueError"}
     parts = rv.split("; ")
     exp = []
     if domain:
         exp.append("Domain=" + {"example.com": "example.com", ".example.com:8080": "example.com", "localhost": "localhost"}[domain])
+    if exp_tail is not None:
+        exp.append(("Expires=", exp_tail))
     if max_age is not None:
         exp.append(pconcat("Max-Age=", pstr(max_age)))
     if secure or partitioned:
@@ -127,7 +149,11 @@ def body_attributes(I, X, n=1, samesite_i=0, path_i=0):
     ok = pand(ok, len(parts) == 1 + len(exp))
     if len(parts) == 1 + len(exp):
         for a, b in zip(parts[1:], exp):
-            ok = pand(ok, peq(a, b))
+            if isinstance(b, tuple):
+                # 'Expires=Wdy, DD Mon YYYY HH:MM:SS GMT' (the day name is not compared)
+                ok = pand(ok, pstartswith(a, b[0]), plen(a) == len(b[0]) + 29, peq(a[len(b[0]) + 5:], b[1]), peq(a[len(b[0]) + 3:len(b[0]) + 5], ", "))
+            else:
+                ok = pand(ok, peq(a, b))
         ok = pand(ok, pstartswith(parts[0], "k="))
     return ok, {"header": rv}
 
@@ -156,4 +182,13 @@ def obligations(tier, seed):
                 out.append({"name": f"attributes[n={n},samesite={SAMESITE[si]!r},path={PATHS[pi]!r}]", "body": "body_attributes",
                             "params": {"n": n, "samesite_i": si, "path_i": pi},
                             "opts": {"budget_s": 1500}, "witness": si == 2 and pi == 0})
+    for month in ([2, 10] if quick else [1, 2, 7, 10, 12]):
+        out.append({"name": f"attributes[expires,month={month}]", "body": "body_attributes", "params": {"n": 0, "samesite_i": 1, "path_i": 1, "expires_month": month},
+                    "opts": {"budget_s": 1500, "ctx": {"bv_ints": True, "max_digits": 6}}})
     return out
+
+
+def make_stubs():
+    from harness import dtmodel
+
+    return dtmodel.stubs()
